@@ -439,6 +439,8 @@ func c01Shapes(c *vlib.Ctx) {
 				vs = append(vs, cp.WordSweep(seed, c.Pick(200, 600))...)
 			}
 			vs = append(vs, cp.LongRepeats(r, seed, c.Pick(3, 16), c.Pick(16384, 65536))...)
+			vs = append(vs, cp.TextVariants(seed, c.Pick(600, 4000))...)
+			vs = append(vs, cp.BigStretch(seed)...)
 			for _, b := range vs {
 				c01Light(c, r, t, b)
 			}
